@@ -562,7 +562,14 @@ pub fn check_aux(prop: &str, c: &AuxCase, rep: &mut Report) {
                 rep.violations.push(aviol(prop, "c20.knn_rows", format!("knn returned {} rows for {n} particles", nn.len()), c));
                 return;
             }
-            for i in 0..n {
+            // every row for ordinary sizes; 300 seeded rows for the large sets (brute force is O(n log n) per row)
+            let rows: Vec<usize> = if n <= 600 {
+                (0..n).collect()
+            } else {
+                let mut r = Rng::stream("C20rows", &[n as u64, c.k as u64]);
+                (0..300).map(|_| r.below(n)).collect()
+            };
+            for i in rows {
                 let mut d: Vec<f64> = (0..n).filter(|&j| j != i).map(|j| c.pts[i].distance_squared(c.pts[j])).collect();
                 d.sort_by(|a, b| a.partial_cmp(b).unwrap());
                 let row = &nn[i];
@@ -737,6 +744,44 @@ pub fn c20(a: &Args, rep: &mut Report) {
         }
     });
     rep.nontrivial.extend(hashes.into_inner().unwrap());
+    // large particle sets and large grids (up to millions of grid cells, most of them empty in the sparse ones)
+    if a.leg.is_none() {
+        // (particles, grid cells per longest axis, k)
+        let big: &[(usize, f64, usize)] = if thorough {
+            &[(20000, 100., 3), (3000, 150., 5), (50000, 40., 8), (100000, 160., 4), (10000, 220., 2), (200000, 60., 1)]
+        } else {
+            &[(20000, 100., 3), (3000, 150., 5), (50000, 40., 8)]
+        };
+        run_parallel(rep, big.len() as u64, budget(a, 200., 1200.), |k, rep| {
+            let (n, per_axis, kk) = big[k as usize];
+            let mut r = Rng::stream("C20big", &[a.seed, k]);
+            // the sparse grids (more cells than particles) are cubic so that the cell count is per_axis^3 (3.4 - 10 million)
+            let asp = if per_axis >= 150. { DVec3::ONE } else { *r.pick(&[DVec3::ONE, DVec3::new(1., 0.5, 0.25), DVec3::new(0.7, 1., 0.9)]) };
+            let scale = *r.pick(&[1., 1e-3, 1e3]);
+            let width = asp * scale;
+            let anchor = *r.pick(&[DVec3::ZERO, DVec3::new(-0.5, -0.5, -0.5), DVec3::new(3.3, -7.1, 11.9)]) * width;
+            let mut pts = Vec::with_capacity(n);
+            while pts.len() < n {
+                let p = anchor + DVec3::new(r.f(), r.f(), r.f()) * width;
+                if (0..3).all(|q| p[q] >= anchor[q] && p[q] - anchor[q] < width[q]) {
+                    pts.push(p);
+                }
+            }
+            let c = AuxCase {
+                kind: "knn".into(),
+                anchor,
+                width,
+                max_cell_width: width.max_element() / per_axis,
+                k: kk,
+                pts,
+                radii: vec![],
+            };
+            check_aux("C20", &c, rep);
+            rep.evaluations += 1;
+            rep.count("large_knn_inputs", 1);
+            rep.max("largest_knn_grid_cells", (width / c.max_cell_width).ceil().to_array().iter().product::<f64>());
+        });
+    }
 }
 
 pub fn replay_c20(v: &Value, rep: &mut Report) -> bool {
